@@ -502,7 +502,12 @@ func (fx *FnExec) applyContract(fr *frame, st *State, fc *FuncContract, callee *
 	}
 	old := st.clone()
 	if !fc.Pure {
-		fx.frameWrite(fr, st, nil, pos, "call "+key+" (not pure)")
+		if fx.pureMode && !fc.ModAll && len(fc.Modifies) > 0 && fx.modifiesOnlyFresh(fc, st, mkEnv) {
+			// a pure caller may call a function whose whole declared footprint lies in memory the
+			// caller allocated itself
+		} else {
+			fx.frameWrite(fr, st, nil, pos, "call "+key+" (not pure)")
+		}
 		if recv != nil {
 			fx.escape(fr, st, recv)
 		}
@@ -1303,4 +1308,44 @@ func countCalls(x *CExpr, name string) int {
 		n += countCalls(a, name)
 	}
 	return n
+}
+
+// modifiesOnlyFresh: every modifies target of fc is a slice range or pointer target whose object was
+// allocated during the current execution (ghost state and opaque() targets do not count as writes).
+func (fx *FnExec) modifiesOnlyFresh(fc *FuncContract, st *State, mkEnv func(*State, *State) *CEnv) (ok bool) {
+	defer func() {
+		if r := recover(); r != nil {
+			ok = false
+		}
+	}()
+	env := mkEnv(st, nil)
+	for _, m := range fc.Modifies {
+		x := m.Expr
+		if x.Op == "call" && x.Name == "opaque" {
+			continue
+		}
+		var base *CExpr
+		switch x.Op {
+		case "slice", "index":
+			base = x.Args[0]
+		case "deref":
+			base = x.Args[0]
+		default:
+			return false
+		}
+		v := env.Eval(base)
+		var ref *Term
+		switch p := v.V.(type) {
+		case SliceV:
+			ref = p.Ref
+		case PtrV:
+			if p.Kind == PObj || p.Kind == PBox {
+				ref = p.Ref
+			}
+		}
+		if ref == nil || !fx.isFreshRef(ref) {
+			return false
+		}
+	}
+	return true
 }
